@@ -16,7 +16,27 @@ import time
 from fractions import Fraction
 
 import vlib
-from vlib import CONFIGS, SAN_CLANG, SAN_GCC, UBSAN_ENV, pmap, run
+from vlib import CONFIGS, SAN_CLANG, SAN_GCC, UBSAN_ENV, pmap
+
+# The machine is shared: a compiler or a sanitized program that is killed / cannot allocate is retried
+# (a verdict must never depend on the load); a deterministic failure survives the retries and is reported.
+_TRANSIENT = re.compile(r"Killed signal|Cannot allocate memory|out of memory|virtual memory exhausted|failed to allocate|"
+                        r"ReserveShadowMemoryRange|Resource temporarily unavailable|posix_spawn|No space left on device|"
+                        r"cannot fork|std::bad_alloc")
+
+
+def run(cmd, **kw):
+    rc, o, e = -1, "", "not run"
+    for attempt in range(3):
+        try:
+            rc, o, e = vlib.run(cmd, **kw)
+        except Exception as ex:      # timeout / spawn failure
+            rc, o, e = -998, "", f"exception: {ex}"
+        if rc < 0 or _TRANSIENT.search((o or "")[-4000:] + (e or "")[-4000:]):
+            time.sleep(2 * (attempt + 1))
+            continue
+        break
+    return rc, o, e
 
 REF = ("g++", "c++14")
 RUN_OPT = "-O0"          # one fixed level for every program that is run (see final report: ~2x faster than -O1)
